@@ -548,7 +548,7 @@ func rootIdent(e ast.Expr) *ast.Ident {
 func genFrame(pkgs map[string]*pkg) {
 	var b strings.Builder
 	b.WriteString("(* C19: package-level variables and the places that write to them or through a method receiver *)\n")
-	var globalsRows, globalWrites, recvWrites []string
+	var globalsRows, globalWrites, recvWrites, globalKinds []string
 	var recvCalls [][3]string
 	writers := map[string]bool{}
 	names := []string{}
@@ -568,10 +568,23 @@ func genFrame(pkgs map[string]*pkg) {
 			for _, d := range p.files[fn].Decls {
 				if gd, ok := d.(*ast.GenDecl); ok && gd.Tok == token.VAR {
 					for _, s := range gd.Specs {
-						for _, n := range s.(*ast.ValueSpec).Names {
+						vs := s.(*ast.ValueSpec)
+						for vi, n := range vs.Names {
 							if n.Name != "_" {
 								globals[n.Name] = true
 								globalsRows = append(globalsRows, fmt.Sprintf("(%s, %s)", coqStr(pn), coqStr(n.Name)))
+								// how the variable is initialised: values that cannot carry mutable state reachable
+								// through their methods (errors, compiled regexps, functions, literals, conversions of
+								// nil for interface assertions) versus anything else (a constructor call, no initialiser)
+								kind := "uninitialised"
+								if vi < len(vs.Values) {
+									kind = initKind(vs.Values[vi])
+								} else if len(vs.Values) == 1 && len(vs.Names) > 1 {
+									kind = "other-call"
+								} else if vs.Type != nil && len(vs.Values) == 0 {
+									kind = "uninitialised"
+								}
+								globalKinds = append(globalKinds, fmt.Sprintf("(%s, %s, %s)", coqStr(pn), coqStr(n.Name), coqStr(kind)))
 							}
 						}
 					}
@@ -683,6 +696,7 @@ func genFrame(pkgs map[string]*pkg) {
 		}
 	}
 	fmt.Fprintf(&b, "Definition package_globals : list (string * string) := %s.\n", coqList(globalsRows))
+	fmt.Fprintf(&b, "(* (package, variable, how it is initialised) *)\nDefinition package_global_kinds : list (string * string * string) := %s.\n", coqList(globalKinds))
 	fmt.Fprintf(&b, "Definition global_writes : list (string * string * string) := %s.\n", coqList(globalWrites))
 	fmt.Fprintf(&b, "Definition receiver_writes : list (string * string * string) := %s.\n", coqList(recvWrites))
 	emit("Frame.v", b.String())
@@ -717,4 +731,54 @@ func genTestStructs(file string) {
 	}
 	fmt.Fprintf(&b, "Definition test_structs : list (string * list field_row) := %s.\n", coqList(rows))
 	emit("TestStructs.v", b.String())
+}
+
+// initKind classifies the initialiser of a package-level variable.
+func initKind(e ast.Expr) string {
+	switch t := e.(type) {
+	case *ast.BasicLit:
+		return "literal"
+	case *ast.CompositeLit:
+		return "literal"
+	case *ast.FuncLit:
+		return "func"
+	case *ast.Ident:
+		return "ident"
+	case *ast.SelectorExpr:
+		return "ident"
+	case *ast.UnaryExpr:
+		if _, ok := t.X.(*ast.CompositeLit); ok {
+			return "literal"
+		}
+		return initKind(t.X)
+	case *ast.ParenExpr:
+		return initKind(t.X)
+	case *ast.IndexExpr, *ast.IndexListExpr:
+		return "func" // an instantiated generic function value
+	case *ast.CallExpr:
+		fn := ""
+		switch f := t.Fun.(type) {
+		case *ast.SelectorExpr:
+			if x, ok := f.X.(*ast.Ident); ok {
+				fn = x.Name + "." + f.Sel.Name
+			}
+		case *ast.Ident:
+			fn = f.Name
+		case *ast.ParenExpr:
+			// a conversion such as (*T)(nil), used for interface assertions
+			if len(t.Args) == 1 {
+				if id, ok := t.Args[0].(*ast.Ident); ok && id.Name == "nil" {
+					return "nil-conversion"
+				}
+			}
+		}
+		switch fn {
+		case "errors.New", "fmt.Errorf":
+			return "error"
+		case "regexp.MustCompile":
+			return "regexp"
+		}
+		return "other-call"
+	}
+	return "other"
 }
